@@ -24,3 +24,4 @@ def run(tier, rep):
         "on the same scripts; extract/replace/sorted_unique construction exist only in the adapter, i.e. are calibrated "
         "against the property text",
     ]
+
